@@ -254,6 +254,7 @@ func checkC06(c *Ctx, r *Report) {
 	checkRequiredness(c, r, "C06.f")
 	// C06.d one body at most reaches the emitters (shared with C10.b)
 	checkOneBodyPerRoute(c, r, "C06.d")
+	checkSchemaTypeWriters(c, r, "C06.b")
 	checkIsContextExact(c, r, "C06.a")
 
 	// helpers whose meaning the rules above take for granted
@@ -961,4 +962,24 @@ func (w *World) flagIsPointerAndNotPath(fi *FuncInfo, p *ssa.Parameter) bool {
 		}
 	}
 	return true
+}
+
+// checkSchemaTypeWriters: "schema of the declared type" - the `type` of a schema is set where a
+// Go type is mapped to a schema (the type mappers and the model generators), nowhere else: a
+// validation rule, an annotation or a parameter location adds keywords to a schema but never
+// re-types it.
+func checkSchemaTypeWriters(c *Ctx, r *Report, clause string) {
+	w := c.W
+	allowed := []string{
+		"generator/swagen/swagen31.ToOpenApiSchemaV3", "generator/swagen/swagen31.InterfaceToSchemaV3",
+		"generator/swagen/swagen31.generateStructsSpec", "generator/swagen/swagen31.generateEnumsSpec", "generator/swagen/swagen31.generateAliasSpec",
+		"generator/swagen/swagen30.ToOpenApiSchema", "generator/swagen/swagen30.InterfaceToSchemaRef",
+		"generator/swagen/swagen30.generateStructSpec", "generator/swagen/swagen30.generateEnumSpec", "generator/swagen/swagen30.generateAliasSpec",
+	}
+	if t := w.extType(pkgKin, "Schema"); t != nil {
+		ruleWhoStores(c, r, clause, t, "Type", allowed, 0, "3.0: Schema.Type is set by the type mappers and model generators only")
+	}
+	if t := w.extType("github.com/pb33f/libopenapi/datamodel/high/base", "Schema"); t != nil {
+		ruleWhoStores(c, r, clause, t, "Type", allowed, 3, "3.1: Schema.Type is set by the type mappers and model generators only")
+	}
 }
